@@ -924,6 +924,8 @@ Varable failures: {var_failed}
         newvarlist += [
             vk for vk in newkeys.values() if vk not in newvarlist
         ]
+        # a variable renamed onto another one is listed once
+        newvarlist = list(OrderedDict.fromkeys(newvarlist))
         setattr(outf, 'VAR-LIST', '')
         outf._add2Varlist([
             vk for vk in newvarlist
